@@ -25,6 +25,16 @@ import (
 	"github.com/icon-project/goloop/module"
 )
 
+// evBlockResult-k delivers block-result descriptor k (a Byzantine peer answering a block
+// fetch with a block and a commit vote list of its choosing)
+const evBlockResult = int32(-1000)
+
+type brDesc struct {
+	block string // block name
+	round int32
+	mask  uint8 // signers whose precommits for (round, block) are put into the commit vote list
+}
+
 const (
 	evTimer    = int32(-1)
 	evCrash    = int32(-3)
@@ -47,6 +57,7 @@ type msgTable struct {
 	env   *csEnv
 	byKey map[string]int
 	msgs  []*xMsg
+	blocks map[string]*fBlock // named blocks (for block-result events)
 	psIDs [][]byte // known part-set hashes (for the bpmCache projection)
 	blkNames map[string]string
 }
@@ -56,6 +67,23 @@ func newMsgTable(env *csEnv) *msgTable {
 }
 
 func (mt *msgTable) nameBlock(id []byte, name string) { mt.blkNames[hex.EncodeToString(id)] = name }
+
+func (mt *msgTable) registerBlock(name string, b *fBlock) {
+	if mt.blocks == nil {
+		mt.blocks = map[string]*fBlock{}
+	}
+	mt.blocks[name] = b
+}
+
+// precommitOf returns the id of the first known precommit of signer for (round, block), or -1.
+func (mt *msgTable) precommitOf(signer int, round int32, block string) int32 {
+	for id, m := range mt.msgs {
+		if m.Kind == "precommit" && m.Signer == signer && m.Round == round && m.Block == block {
+			return int32(id)
+		}
+	}
+	return -1
+}
 
 // namePS names a part-set hash (proposals and block parts carry it, not the block id).
 func (mt *msgTable) namePS(hash []byte, name string) { mt.blkNames["ps:"+hex.EncodeToString(hash)] = name }
@@ -214,6 +242,7 @@ type explorer struct {
 	stats  xStats
 	mismatch []string
 	menuIdx  map[int32]int
+	brs      []brDesc
 	diffEvery int // run the differential projection check on every diffEvery-th memo miss (<=1: all)
 	nodeHook func(n *csNode) // applied to every fresh node (e.g. WAL factory side effects)
 }
@@ -260,6 +289,11 @@ func (x *explorer) applyEventFail(n *csNode, ev int32, fail int32) []int32 {
 		n.fireTimer()
 	case ev == evCrash:
 		n.crashRestart()
+	case ev <= evBlockResult:
+		raw, votes := x.blockResultBytes(x.brs[evBlockResult-ev])
+		if raw != nil {
+			n.deliverBlockResult(raw, votes)
+		}
 	case ev <= evComplete:
 		n.complete(int(evComplete - ev))
 	}
@@ -272,6 +306,55 @@ func (x *explorer) applyEventFail(n *csNode, ev int32, fail int32) []int32 {
 		outs = append(outs, int32(x.mt.intern(s.Proto, s.Bytes)))
 	}
 	return outs
+}
+
+// blockResultBytes builds the wire form of a block result: the block's raw bytes and
+// a commit vote list made of the known precommits of the masked signers.
+func (x *explorer) blockResultBytes(d brDesc) (raw []byte, votes []byte) {
+	blk := x.mt.blocks[d.block]
+	if blk == nil {
+		return nil, nil
+	}
+	var msgs []*VoteMessage
+	for sgn := 0; sgn < x.n; sgn++ {
+		if d.mask&(1<<uint(sgn)) == 0 {
+			continue
+		}
+		id := x.mt.precommitOf(sgn, d.round, d.block)
+		if id < 0 {
+			return nil, nil
+		}
+		m, err := UnmarshalMessage(x.mt.msgs[id].Proto, x.mt.msgs[id].Bytes)
+		if err != nil {
+			return nil, nil
+		}
+		msgs = append(msgs, m.(*VoteMessage))
+	}
+	cvl, err := newCommitVoteList(nil, msgs)
+	if err != nil {
+		return nil, nil
+	}
+	return blk.raw, cvl.Bytes()
+}
+
+// brEnabled: every precommit the descriptor needs exists (sent by a correct node, or in the Byzantine menu).
+func (x *explorer) brEnabled(bag *bagSet, d brDesc, byz int) bool {
+	if x.mt.blocks[d.block] == nil {
+		return false
+	}
+	for sgn := 0; sgn < x.n; sgn++ {
+		if d.mask&(1<<uint(sgn)) == 0 {
+			continue
+		}
+		id := x.mt.precommitOf(sgn, d.round, d.block)
+		if id < 0 {
+			return false
+		}
+		if sgn != byz && !bag.has(id) {
+			return false
+		}
+	}
+	return true
 }
 
 func (x *explorer) describe(n *csNode) *lState {
@@ -416,6 +499,9 @@ func (x *explorer) evName(ev int32) string {
 		return "timeout"
 	case ev == evCrash:
 		return "crash+restart"
+	case ev <= evBlockResult:
+		d := x.brs[evBlockResult-ev]
+		return fmt.Sprintf("block result {block %s, commit votes of round %d by validators mask %04b}", d.block, d.round, d.mask)
 	default:
 		return fmt.Sprintf("complete bm request #%d", evComplete-ev)
 	}
@@ -467,6 +553,7 @@ type gEvent struct {
 	Proto uint16 `json:"proto,omitempty"`
 	Bytes string `json:"bytes,omitempty"`
 	K     int    `json:"k,omitempty"`
+	Blk   string `json:"block,omitempty"` // raw block bytes of a block-result event (Bytes = commit vote list)
 	Fail  int    `json:"crash_before_effect,omitempty"` // the step is interrupted by a crash before this effect (WAL write / WAL sync / send), then the node restarts
 }
 
@@ -634,6 +721,9 @@ func (x *explorer) trace(edges []gEdge, id int32) []gEvent {
 			ge.Kind = "timeout"
 		case e.ev == evCrash:
 			ge.Kind = "crash"
+		case e.ev <= evBlockResult:
+			raw, votes := x.blockResultBytes(x.brs[evBlockResult-e.ev])
+			ge.Kind, ge.Bytes, ge.Blk = "blockresult", hex.EncodeToString(votes), hex.EncodeToString(raw)
 		default:
 			ge.Kind, ge.K = "complete", int(evComplete-e.ev)
 		}
@@ -677,6 +767,8 @@ func replayTraceFull(env *csEnv, correct []int, tr []gEvent, hook func(n *csNode
 			n.crashRestart()
 		case "complete":
 			n.complete(e.K)
+		case "blockresult":
+			n.deliverBlockResult(unhex(e.Blk), unhex(e.Bytes))
 		}
 		n.failAt = 0
 		if n.crashedInStep {
@@ -772,6 +864,7 @@ type devCfg struct {
 	crashInside bool // deviation: crash inside the default next step, before each of its effects
 	lagNode    int  // votes reach this node last in the default schedule (-1: none); proposals and parts are in time
 	pcFirst    bool // default scheduler delivers precommits before other messages
+	lagParts   bool // the lagging node gets votes in time and proposals/block parts late (instead of the reverse)
 	preAllowNode map[int]allowSet // Byzantine strategy, per receiving node (overrides preAllow for that node)
 	preAllow   allowSet  // Byzantine strategy: menu entries released to every node from the start
 	prefix     []dAction // base schedule applied before the search starts (cost 0)
@@ -869,6 +962,9 @@ func (x *explorer) searchDev(cfg devCfg) *devResult {
 				ge.Kind = "timeout"
 			case a.ev == evCrash:
 				ge.Kind = "crash"
+			case a.ev <= evBlockResult:
+				raw, votes := x.blockResultBytes(x.brs[evBlockResult-a.ev])
+				ge.Kind, ge.Bytes, ge.Blk = "blockresult", hex.EncodeToString(votes), hex.EncodeToString(raw)
 			default:
 				ge.Kind, ge.K = "complete", int(evComplete-a.ev)
 			}
@@ -977,8 +1073,11 @@ func (x *explorer) searchDev(cfg devCfg) *devResult {
 						if st.terminal || !x.deliverable(s, i, m, menuIdx) {
 							continue
 						}
-						if gi == 0 && i == cfg.lagNode && (x.mt.msgs[m].Kind == "prevote" || x.mt.msgs[m].Kind == "precommit") {
-							continue
+						if gi == 0 && i == cfg.lagNode {
+							isVote := x.mt.msgs[m].Kind == "prevote" || x.mt.msgs[m].Kind == "precommit"
+							if isVote != cfg.lagParts {
+								continue
+							}
 						}
 						r := x.step(i, st.id, m)
 						if r.next != st.id || len(r.outs) > 0 {
@@ -1097,6 +1196,17 @@ func (x *explorer) searchDev(cfg devCfg) *devResult {
 					if x.deliverable(&s, i, m, menuIdx) {
 						alt(dAction{kind: "ev", node: i, ev: m})
 					}
+				}
+			}
+		}
+		// a Byzantine peer answers a block fetch with a block and commit votes of its choosing
+		for k, d := range x.brs {
+			if !x.brEnabled(&s.bag, d, cfg.byz) {
+				continue
+			}
+			for _, i := range x.correct {
+				if !x.states[i][s.L[i]].terminal {
+					alt(dAction{kind: "ev", node: i, ev: evBlockResult - int32(k)})
 				}
 			}
 		}
